@@ -1,5 +1,5 @@
 // ======================================================================================
-// units/C15/block_edit.rs — construction / editing operations of il::Operation, il::Instruction
+// units/C15/block_edit.rs - construction / editing operations of il::Operation, il::Instruction
 // and il::Block.  Included inside `pub mod il` after units/C15/il_core.rs.
 // Every Block edit: `requires old(self).block_wf()` (+ a counter bound where the code bumps the
 // instruction counter), `ensures final(self).block_wf()` + the exact effect on every field.
@@ -334,7 +334,7 @@ impl Block {
 //@ end
 
 // instruction_mut hands out `&mut Instruction` found through `iter_mut().find(..)`; vstd has no usable
-// specification of `IterMut` / `find`, so the function is only checked for absence of panics — NO effect
+// specification of `IterMut` / `find`, so the function is only checked for absence of panics - NO effect
 // contract (listed under undecided_subclaims; keeping block_wf is the caller's obligation).
 //@ fn impl Block :: fn instruction_mut
 //@ closure 0 |instruction: &&mut Instruction| -> (r0: bool)
